@@ -17,10 +17,7 @@ MUTANTS = [
                     result = self.addExtension(result)
                     if result not in self.invalid:
                         self.invalid[result] = None
-                        yield result
-                    else:
-                        continue
-                    break""",
+                        yield result""",
      """                    result = string.Template(item).substitute(currentns)
                     self.variables.clear()
                     self.variables.update(g)
@@ -29,10 +26,7 @@ MUTANTS = [
                         if 'num' in currentns:
                             num += 1
                         self.invalid[result] = None
-                        yield result
-                    else:
-                        continue
-                    break"""),
+                        yield result"""),
     ('C15', 'invalid-check-dropped-for-static', 'plasTeX/Filenames.py',
      """                result = self.addExtension(result)
                 if result not in self.invalid:
@@ -58,15 +52,25 @@ MUTANTS = [
                     result = self.addExtension(result)
                     if result not in self.invalid:
                         self.invalid[result] = None
-                        yield result
-                    else:""",
+                        yield result""",
      """                    if 'num' in currentns:
                         num += 1
                     result = self.addExtension(result)
                     if result not in self.invalid:
                         self.invalid[result] = None
-                        yield result
-                    else:"""),
+                        yield result"""),
+    # ---------------- reverted repairs (a fixed finding must be reported again if it returns)
+    ('C04', 'readKeyword-drops-element', 'plasTeX/TeX.py',
+     """                if t.nodeType == Token.ELEMENT_NODE:
+                    self.pushToken(t)
+                    break
+                matched.append(t)""",
+     """                if t.nodeType == Token.ELEMENT_NODE:
+                    break
+                matched.append(t)"""),
+    ('C17', 'sys-path-reference-not-copy', 'plasTeX/Context.py',
+     """        orig_sys_path = list(sys.path)""",
+     """        orig_sys_path = sys.path"""),
     # ---------------- C06
     ('C06', 'insertAfter-off-by-one', 'plasTeX/DOM/__init__.py',
      """            if item is refChild:
